@@ -1,5 +1,6 @@
 import FiberModel.C04.MoreLemmas
 import FiberModel.C04.Compose
+import FiberModel.C04.Refuse
 /-
 C04 — property theorems. `flatten` is the model of what the repaired code builds (register,
 addRoute's merge, mount placeholders, processSubAppsRoutes' splice / addPrefixToRoute / renumbering);
@@ -232,5 +233,28 @@ example :
 
 /-- the locality hypothesis is not vacuous for the real key rule: a route in a 3-byte bucket -/
 example : keyC02 ⟨false, false⟩ false (b "/api/x") = 47 * 65536 + 97 * 256 + 112 := by decide
+
+/-- "Refused at startup" is part of answering alike: whatever paths `register` / `addPrefixToRoute`
+refuse (`rf`: any predicate on the registered Path — in the code "more than `maxParams` parameters"),
+the mounted composition would hold a refused route iff the group composition would. Full strength:
+every tree, config, parser, guard. (From `mount_eq_group_paths`: identical Paths per handler.) -/
+theorem refused_mount_iff_group (rf : Bytes → Bool) (cfg : Cfg) (po : Bytes → List Bytes) (items : List Item) :
+    refused rf (flatten cfg po items) = refused rf (flattenSpec cfg po items) := by
+  unfold refused refusedAt
+  apply any_congr_mem
+  intro k hk
+  rw [mount_eq_group_paths cfg po items k (List.mem_range.mp hk)]
+
+/-- the guard of the code as an instance: Paths with more than `n` parameters (code: n = 30) -/
+theorem refused_mount_iff_group_maxParams (n : Nat) (cfg : Cfg) (po : Bytes → List Bytes) (items : List Item) :
+    refused (fun p => decide ((po p).length > n)) (flatten cfg po items) =
+      refused (fun p => decide ((po p).length > n)) (flattenSpec cfg po items) :=
+  refused_mount_iff_group _ cfg po items
+
+/-- non-vacuity: on the sample tree a guard that refuses one of its Paths refuses both compositions,
+a guard that refuses nothing refuses neither -/
+example : refused (fun p => p == ((flatten ⟨false, false⟩ noParams sampleTree 0).map (·.raw)).headD []) (flatten ⟨false, false⟩ noParams sampleTree) = true ∧
+    refused (fun p => p == ((flatten ⟨false, false⟩ noParams sampleTree 0).map (·.raw)).headD []) (flattenSpec ⟨false, false⟩ noParams sampleTree) = true ∧
+    refused (fun _ => false) (flatten ⟨false, false⟩ noParams sampleTree) = false := by decide
 
 end C04
